@@ -204,8 +204,9 @@ func ScaleTwistExtrude3D(sdf SDF2, height, twist float64, scale v2.Vec) SDF3 {
 	s.extrude = ScaleTwistExtrude(height, twist, scale)
 	// work out the bounding box
 	bb := sdf.BoundingBox()
-	bb = bb.Extend(Box2{bb.Min.Mul(scale), bb.Max.Mul(scale)})
-	l := box2MaxRadius(bb)
+	// the twist turns the profile while each axis is scaled separately: any
+	// profile point can end up along the axis with the largest scale
+	l := box2MaxRadius(bb) * math.Max(1, math.Max(scale.X, scale.Y))
 	s.bb = Box3{v3.Vec{-l, -l, -s.height}, v3.Vec{l, l, s.height}}
 	return &s
 }
